@@ -136,7 +136,7 @@ _NULL = _NullOut()
 STEP_BUDGET = 200000
 
 
-def mk_parser(prods, start, smart, kw=False, rev=False):
+def mk_parser(prods, start, smart, kw=False, rev=False, noskip=False):
     LLParser = parser_class()
     items = list(prods.items())
     if rev:
@@ -145,6 +145,9 @@ def mk_parser(prods, start, smart, kw=False, rev=False):
     if kw:
         return LLParser(TOK_KW, productions=pp, start_symbol_name=start, smart_factorization=smart,
                         synonyms=KW_SYN, keywords=KW_KEY)
+    if noskip:
+        # "skip nothing": the white space tokens stay in the token stream (no grammar of the families accepts them)
+        return LLParser(TOK_PLAIN, productions=pp, start_symbol_name=start, smart_factorization=smart, skip_tokens=set())
     return LLParser(TOK_PLAIN, productions=pp, start_symbol_name=start, smart_factorization=smart)
 
 
@@ -176,16 +179,17 @@ def run_grammar(job):
     Returns dict(viol=[(prop, what, case, tags)], obs=[json-able observation for the judge], n=parses)"""
     case, terms, k, kw, budget = job[:5]
     rev = bool(job[5]) if len(job) > 5 else False
+    noskip = bool(job[6]) if len(job) > 6 else False
     from ak.llparser import GrammarIsRecursive, ParsingError, Error
     prods, start = case['prods'], case['start']
     lang = set(tuple(s) for s in case['lang'])
     viol, obs = [], []
-    gdesc = {'start': start, 'prods': prods, 'terms': terms, 'rev': rev}
+    gdesc = {'start': start, 'prods': prods, 'terms': terms, 'rev': rev, 'noskip': noskip}
     parsers = {}
     ctor = {}
     for smart in (True, False):
         try:
-            parsers[smart] = mk_parser(prods, start, smart, kw, rev)
+            parsers[smart] = mk_parser(prods, start, smart, kw, rev, noskip)
             ctor[smart] = 'ok'
         except GrammarIsRecursive:
             ctor[smart] = 'GrammarIsRecursive'
@@ -206,6 +210,11 @@ def run_grammar(job):
             elif not case['leftrec']:
                 # rejected for another reason: outside "accepted by the constructor"; recorded, no verdict
                 pass
+        # C02: a conflict-free grammar must get a parser at all
+        if case['ll1'] and not case['leftrec'] and ctor[smart] == 'GrammarIsRecursive':
+            viol.append(('C02', 'conflict-free (LL(1)) grammar is rejected by the constructor with GrammarIsRecursive, so none of its '
+                         'sentences can be parsed: start=%s prods=%s smart=%s' % (start, prods, smart),
+                         {'g': gdesc, 'smart': smart, 'kw': kw, 'kind': 'ctor'}, []))
     n = 0
     maxsteps = 0
     res_by_smart = {}
@@ -220,6 +229,9 @@ def run_grammar(job):
         results = []
         for toks in all_inputs(terms, k):
             text, etoks = render(toks, kw, salt=len(toks))
+            if noskip:
+                # the tokens of the text include the white space between the words
+                etoks = [x for i, tk in enumerate(etoks) for x in (([{'n': 'SPACE', 'v': ' '}] if i else []) + [tk])]
             n += 1
             signal.setitimer(signal.ITIMER_REAL, budget)
             try:
@@ -250,12 +262,30 @@ def run_grammar(job):
                 continue
             if case['leftrec']:
                 continue
-            if exact and ((r == 'tree') != (tuple(toks) in lang)):
+            if exact and not noskip and ((r == 'tree') != (tuple(toks) in lang)):
                 viol.append(('C02', 'conflict-free grammar start=%s prods=%s smart=%s: %r is %s sentence but parse gives %s' % (
                     start, prods, smart, text, 'a' if tuple(toks) in lang else 'not a', r), pcase, []))
             if r == 'tree':
                 obs.append({'g': gdesc, 'toks': etoks, 'res': r, 'tree': tj, 'exact': bool(exact),
                             'smart': smart, 'kw': kw, 'tn': toks})
+        # parse(..., start_symbol_name=X): whatever comes back must be a derivation from X (C01); whether a
+        # sentence of X is accepted is not judged (the table is built for the constructor's start symbol)
+        if not case['leftrec'] and not noskip and not kw:
+            for X in sorted(prods):
+                if X == start:
+                    continue
+                for toks in all_inputs(terms, min(k, 3)):
+                    text, etoks = render(toks, kw, salt=len(toks))
+                    n += 1
+                    signal.setitimer(signal.ITIMER_REAL, budget)
+                    try:
+                        t = p.parse_counted(text, STEP_BUDGET, do_cleanup=False, start_symbol_name=X)
+                    except Exception:
+                        continue
+                    finally:
+                        signal.setitimer(signal.ITIMER_REAL, 0)
+                    obs.append({'g': dict(gdesc, start=X, ctor_start=start), 'toks': etoks, 'res': 'tree', 'tree': tree_json(t), 'exact': False,
+                                'smart': smart, 'kw': kw, 'tn': toks, 'xstart': True})
         amb_after = p.is_ambiguous()
         if amb_after != amb:
             viol.append(('C02', 'is_ambiguous() changed from %s to %s after parsing %d texts: start=%s prods=%s smart=%s' % (
@@ -338,6 +368,8 @@ def explore(ctx, want):
         if numnt > 1:
             revn = 20000 if ctx.quick else len(cases)
             jobs += [(c, terms, k, False, budget, True) for c in ctx.rnd.sample(cases, min(revn, len(cases)))]
+        # explicitly empty skip_tokens on a seeded sample
+        jobs += [(c, terms, k, False, budget, False, True) for c in ctx.rnd.sample(cases, min(kwn, len(cases)))]
         results = replay_jobs(jobs)
         obs = []
         for job, res in zip(jobs, results):
@@ -391,9 +423,11 @@ def explore(ctx, want):
                     continue
                 if kind == 'REJECT-TREE':
                     ctx.violation({'g': o['g'], 'smart': o['smart'], 'kw': o['kw'], 'toks': o['tn'], 'kind': 'parse'},
-                                  'parse returned a tree that is not a valid derivation of the user grammar: '
+                                  'parse%s returned a tree that is not a valid derivation of the user grammar%s: '
                                   'start=%s prods=%s smart=%s tokens=%s tree=%s' % (
-                                      o['g']['start'], o['g']['prods'], o['smart'], o['tn'], json.dumps(o['tree'])))
+                                      '(start_symbol_name=%r)' % o['g']['start'] if o.get('xstart') else '',
+                                      ' (skip_tokens=set(): white space tokens are part of the input)' if o['g'].get('noskip') else '',
+                                      o['g'].get('ctor_start') or o['g']['start'], o['g']['prods'], o['smart'], o['tn'], json.dumps(o['tree'])))
             nobs += len(uniq)
             for o in uniq[:2]:
                 ctx.sample({'grammar': o['g'], 'tokens': o['tn'], 'tree': o['tree']})
@@ -596,9 +630,11 @@ def eval_grammars(ctx, grams):
 def replay_case(ctx, case, want):
     g = case['g']
     k = max(3, len(case.get('toks') or []))
-    ev = eval_grammars(ctx, [{'start': g['start'], 'terms': g['terms'], 'prods': g['prods'], 'k': k}])[0]
-    job = ({'start': g['start'], 'prods': g['prods'], 'leftrec': ev['leftrec'], 'lrsyms': ev['lrsyms'],
-            'll1': ev['ll1'], 'lang': ev['lang']}, g['terms'], k, bool(case.get('kw')), 120.0, bool(g.get('rev')))
+    cstart = g.get('ctor_start') or g['start']      # parse(start_symbol_name=...) cases name the constructor's start too
+    ev = eval_grammars(ctx, [{'start': cstart, 'terms': g['terms'], 'prods': g['prods'], 'k': k}])[0]
+    job = ({'start': cstart, 'prods': g['prods'], 'leftrec': ev['leftrec'], 'lrsyms': ev['lrsyms'],
+            'll1': ev['ll1'], 'lang': ev['lang']}, g['terms'], k, bool(case.get('kw')), 120.0, bool(g.get('rev')),
+           bool(g.get('noskip')))
     _worker_init()
     res = run_grammar(job)
     for prop, what, c, tags in res['viol']:
